@@ -1,4 +1,8 @@
-"""C03 - urban weather at hour h depends only on rural data up to hour h."""
+"""C03 - urban weather at hour h depends only on rural data up to hour h.
+
+Round 5 (helpers in harness/v1_util.py): hand-over twins - what generate() hands to simulate() and what the loop hands to
+the physics at every step, compared between twin rural files / window lengths for off-grid pavement thicknesses and
+ground records with 0..6 depths (handover_twins); a difference is confirmed by a pair of un-stubbed runs."""
 import csv
 import os
 
@@ -609,6 +613,153 @@ def circumstance_pairs(chk, work, base):
                mismatches=bad[0], branches=branches)
 
 
+def handover_twins(chk, work, base):
+    """Round 5. Causality split at the two hand-overs, for geometries and ground records the paired runs never varied.
+    (i) what generate() hands to simulate() - every object and table it builds except the containers of the window
+    itself - and (ii) what the loop hands to the physics at every step (forcing row incl. deep-ground and water
+    temperature, clock, day type, traffic heat, canyon humidity, schedule values and set points of every building; real
+    loop, physics stubbed) are compared between a reference run and its twins: rural rows after a cut hour changed /
+    EVERY rural row outside the window changed / one or two more days from the same start / unmodelled columns changed.
+    Members: pavement thicknesses that end above or below a ground depth and are off the 5 cm grid (0.3, 0.1, 0.3048,
+    0.25, 0.62, 1.25 m), ground records with depths to the millimetre, with 4 and 6 depths, a first depth of 2 m, and
+    records with 0, 1 and 2 depths (whole-window mean: only the twins that leave the window unchanged are demanded, the
+    after-cut twin keeps the mean by swapping two later rows). A difference at a hand-over is confirmed by the pair of
+    un-stubbed runs and reported with the first hour whose records differ."""
+    import s1_util as S
+    import v1_util as V
+    rng = chk.rng
+    thorough = chk.tier == 'thorough'
+    if thorough:
+        members = list(V.GEOMETRY_POOL) + list(V.FEWDEPTH_POOL)
+    else:
+        members = [rng.choice(V.GEOMETRY_POOL[:4]), rng.choice(V.FEWDEPTH_POOL[:3]), rng.choice(V.GEOMETRY_POOL[4:]),
+                   rng.choice(V.FEWDEPTH_POOL[1:])]
+    bad, total, branches, refused = 0, 0, {}, 0
+
+    def gen(path, name, attrs):
+        m = U.new_model(epw=path, outdir=work, outname=name, **attrs)
+        with core.quiet():
+            m.generate()
+        return m
+
+    for mi, (label, depths, extra) in enumerate(members):
+        few = depths is not None and len(depths) < 3
+        month, day = rng.choice([(1, 1), (3, 30), (6, 29), (9, 14), (11, 2), (5, 31)])
+        dt = rng.choice([300, 300, 150, 600, 100, 225])
+        first = 8 + 24 * S.doy0(month, day)
+        h = rng.randint(9, 20)
+        attrs = dict(month=month, day=day, nday=1, dtsim=dt, **extra)
+        rows = V.ground_rows(base, depths)
+        src = S.save_epw(rows, os.path.join(work, 'ho%d_src.epw' % mi))
+        twins = []
+        # after the cut: every modelled column of every later row of the window (and of the following day)
+        pert = S.copy_rows(rows)
+        if few:
+            i1, i2 = first + h + 1, first + 23
+            pert[i1][6], pert[i2][6] = pert[i2][6], pert[i1][6]          # the window mean stays
+            for i in range(first + h + 1, first + 24):
+                for c in (8, 9, 12, 14, 15, 20, 21):
+                    pert[i][c] = perturb_value(rng, c, pert[i][c])
+        else:
+            for i in range(first + h + 1, min(first + 48, len(pert))):
+                for c in MODELLED:
+                    pert[i][c] = perturb_value(rng, c, pert[i][c])
+        twins.append(('rural rows after hour %d changed' % h, S.save_epw(pert, os.path.join(work, 'ho%d_cut.epw' % mi)),
+                      attrs, h + 1, 1e-12 if few else None))
+        # outside the window: EVERY row, every modelled column (the dry bulb of the whole rest of the year moves)
+        outs = S.copy_rows(rows)
+        for i in list(range(8, first)) + list(range(first + 24, len(outs))):
+            for c in MODELLED:
+                outs[i][c] = perturb_value(rng, c, outs[i][c])
+        twins.append(('every rural row outside the window changed', S.save_epw(outs, os.path.join(work, 'ho%d_out.epw' % mi)),
+                      attrs, 24, None))
+        if not few:
+            more = rng.choice([1, 2]) if S.doy0(month, day) + 3 <= 365 else 1
+            twins.append(('%d more day(s) simulated from the same start' % more, src, dict(attrs, nday=1 + more), 24, None))
+        if thorough:
+            unm = S.copy_rows(rows)
+            for i in range(first, first + 24):
+                for c in range(6, len(unm[i])):
+                    if c not in MODELLED:
+                        unm[i][c] = perturb_value(rng, c, unm[i][c])
+            unm[0][1], unm[5][1] = 'Elsewhere', 'changed, comment'
+            twins.append(('unmodelled columns and header text changed', S.save_epw(unm, os.path.join(work, 'ho%d_unm.epw' % mi)),
+                          attrs, 24, None))
+        try:
+            ref = gen(src, 'ho_ref.epw', attrs)
+        except Exception as e:  # noqa: BLE001 - a refused configuration has no urban value
+            refused += 1
+            chk.notes.append('hand-over twins: %s refused by generate(): %s' % (label, str(e)[:80]))
+            continue
+        ref_init = V.initial_digests(ref)
+        ref_trace = V.handover_trace(ref)
+        spd = 86400 // dt
+        for (what, path, tattrs, upto, tol) in twins:
+            total += 1
+            branches[what.split(' changed')[0].split(' simulated')[0][-40:]] = branches.get(
+                what.split(' changed')[0].split(' simulated')[0][-40:], 0) + 1
+            case = {'kind': 'hand-over twins', 'member': label, 'GROUND TEMPERATURES': rows[3][:2] + (['depths as shipped: 0.5 / 2 / 4 m'] if depths is None else list(depths)),
+                    'params': attrs, 'twin': what, 'twin_params': tattrs, 'first_row': first, 'cut_hour': upto - 1,
+                    'how': 'harness/props/c03.py handover_twins; v1_util.initial_difference / handover_trace'}
+            try:
+                tw = gen(path, 'ho_twin.epw', tattrs)
+            except Exception as e:  # noqa: BLE001
+                bad += 1
+                chk.violation('impl-violation', 'causality: the twin of an accepted configuration is refused (%s)' % what,
+                              case=case, observed='%s: %s' % (type(e).__name__, str(e)[:160]),
+                              expected='the same urban hours up to the cut')
+                continue
+            diff = V.initial_difference(ref_init, tw, lambda: gen(src, 'ho_ref2.epw', attrs))
+            where = 'what generate() hands to simulate()'
+            if diff is None:
+                hd = V.handover_difference(ref_trace, V.handover_trace(tw, max_steps=upto * spd // 24), upto * spd // 24, tol)
+                if hd is not None:
+                    diff = ('step %d' % hd[0], '%s = %r vs %r' % (hd[1], hd[2], hd[3]))
+                    where = 'what the loop hands to the physics'
+            if diff is None:
+                continue
+            # confirm in the property's own terms: the pair of un-stubbed runs
+            confirmed = None
+            try:
+                a = run_model(src, work, 'ho_a.epw', **attrs)
+                b = run_model(path, work, 'ho_b.epw', **tattrs)
+                d = first_diff(a[1], b[1], upto)
+                if d is None:
+                    for n in range(upto):
+                        if [a[2][first + n][c] for c in (6, 7, 8, 21)] != [b[2][first + n][c] for c in (6, 7, 8, 21)]:
+                            d = n
+                            break
+                if d is not None:
+                    confirmed = 'un-stubbed pair: hour %d differs: records %s vs %s' % (d, a[1][d][:3], b[1][d][:3])
+            except Exception as e:  # noqa: BLE001
+                confirmed = None
+                chk.notes.append('hand-over twins: confirmation pair of %s raised %s' % (label, str(e)[:80]))
+            bad += 1
+            if confirmed:
+                if bad <= 3:
+                    chk.violation('impl-violation', 'causality: paired runs differ (%s; %s)' % (label, what), case=case,
+                                  observed={'hand-over': where, 'first difference': list(diff), 'paired runs': confirmed},
+                                  expected='records and written rows for hours <= %d bit-identical' % (upto - 1))
+            else:
+                chk.corr_problems.append({'tie': 'hand-over twins', 'case': '%s / %s / %s' % (label, what, attrs),
+                                          'impl': '%s differs: %s' % (where, list(diff)),
+                                          'model': 'Sim.simulate: initial state and forcing of hours <= h are functions of the '
+                                                   'rows up to h (the un-stubbed pair showed no difference in the records)'})
+    chk.direct('hand-over twins(off-grid pavement / ground records with 0..6 depths)', total, total,
+               'real generate() and the real simulate loop (physics stubbed) on copies of the Singapore file whose GROUND '
+               'TEMPERATURES record and pavement are varied: pavement 0.3 / 0.1 / 0.3048 / 0.25 m over the shipped depths (soil '
+               'slices padded below it), 0.62 / 1.25 m (below the first depth), depths written to the millimetre, a 0.52 m '
+               'pavement over a 0.51 m depth, 4 and 6 depths, first depth 2 m, other building / sensor heights; records with '
+               '2, 1 and 0 depths (quick: one thin pavement, one deeper / off-grid member, two few-depth members; thorough: '
+               'all 16). For each: reference vs twins - rows after a cut hour h in 9..20 changed in every modelled column (few '
+               'depths: window mean kept by swapping) / EVERY row outside the window changed / 1-2 more days (>= 3 depths) / '
+               'thorough: unmodelled columns. Compared: (i) every object and table generate() builds except forcIP / weather / '
+               'simTime / forc, bit-exact; (ii) per step up to the cut: the twelve forcing values incl. deep-ground and water '
+               'temperature, clock, day type, traffic heat, canyon humidity, six schedule values and six building settings per '
+               'building. A difference is confirmed by the pair of un-stubbed runs (first differing hour) before it is reported',
+               mismatches=bad, branches=dict(branches, refused=refused))
+
+
 def run(chk):
     from props import step
     chk.proof(MODULE, THEOREMS + step.THEOREMS, extra_modules=[step.MODULE])
@@ -762,6 +913,7 @@ def run(chk):
     variant_pairs(chk, work, base)
     window_statistic_pairs(chk, work, base)
     circumstance_pairs(chk, work, base)
+    handover_twins(chk, work, base)
     # composition C: the physics of one step as one Lean function, tied exactly to the real loop body
     step.run_step(chk)
     chk.assumptions.append('the theorems hold for ANY physics that is a function of (state, current forcing row, '
